@@ -310,12 +310,15 @@ def finish(res):
     ev = dict(
         property_id=pid, tier=tier, seed=res["seed"], level="model_checking",
         coverage=dict(
-            evaluations=max(total_q, 1),
+            evaluations=max(total_q + sum(a["checks"] for a in agg.values()),
+                            1),
             distinct_nontrivial=total_p,
             rule="DSE over the real code: every control-flow path within the "
                  "stated bounds is one case (distinct decision prefixes; "
                  "aborted = infeasible under the preconditions are not "
-                 "counted); evaluations = SMT queries discharged (z3), "
+                 "counted); evaluations = SMT queries sent to z3 plus "
+                 "assertions discharged (an assertion that z3's simplifier "
+                 "reduces to true needs no query), "
                  "distinct_nontrivial = completed feasible paths whose "
                  "assertions were all discharged by the solver",
             samples=samples or [dict(note="no completed path")],
